@@ -451,7 +451,8 @@ MoveInfo Position::do_move(Move move)
 
     if (castling(move) != NO_CASTLING)
     {
-        _half_move_counter = 0;
+        // castling is neither a capture nor a pawn move
+        _half_move_counter++;
 
         Rank rank = side == WHITE ? RANK_1 : RANK_8;
         if (castling(move) == KING_CASTLING)
